@@ -9,6 +9,7 @@ import Cctz.Model.Fixed
 import Cctz.Model.Posix
 import Cctz.Model.Tz
 import Cctz.Model.Split
+import Cctz.Model.SubQuery
 import Cctz.Model.Loader
 import Cctz.Model.Format
 import Cctz.Model.Parse
@@ -264,9 +265,8 @@ def zoneOp (st : DState) (toks : List String) : Option (DState × String) :=
       let den := if den < 0 then -den else den
       let e ← st.find id
       let r : Ck String := do
-        let (sec, sub) ← Split.splitSeconds 1 den c
-        let n ← Tz.nextTransition e.zone sec
-        let p ← Tz.prevTransition e.zone (if sub > 0 ∧ sec < i64max then sec + 1 else sec)
+        let n ← SubQuery.nextSub e.zone den c
+        let p ← SubQuery.prevSub e.zone den c
         pure s!"N {showTransitionOpt n} | P {showTransitionOpt p}"
       some (st, showCk r (fun s => s))
   | ["preds", id] => do
